@@ -223,7 +223,7 @@ def run_mhn_stream(ctx, cuqi, thorough, H):
         if L > 1:
             bc.append((np.full(L, 2.0), np.full(L, -1.0)))
         for (b, c) in bc:
-            for N in sorted(set([1, 2, L, L + 1, 4])):
+            for N in sorted(set([1, L, L + 1] + ([2, 4] if thorough or L == 1 else []))):
                 try:
                     with quiet():
                         D = ModifiedHalfNormal(a, b, c)
@@ -243,7 +243,6 @@ def run_mhn_stream(ctx, cuqi, thorough, H):
                 probes_l.append(f"mhnprobe sample {cs['ptoks'][0]} {cs['ptoks'][1]} {cs['ptoks'][2]} {i} {qv(CAND_T + [0.0, -0.5])}")
         else:
             probes_l.append(f"mhnprobe {cs['entry']} {q(a)} {q(b)} {q(c)} {m_tok(cs['m'])} {qv(CAND_T + [0.0, -0.5])}")
-    po = ctx.lean.drive(probes_l)
     # K1 / K2 of the normal-vs-sqrt-gamma choice for every parameter triple a draw is made with: when they agree to
     # 1e-9 the choice depends on the last bits of `gamma()` / `power()` and the case is skipped (counted)
     kl, kidx = [], []
@@ -258,7 +257,8 @@ def run_mhn_stream(ctx, cuqi, thorough, H):
             trip = []
         kidx.append((len(kl), len(trip)))
         kl += [f"mhn {q(x)} {q(y)} {q(z)}" for (x, y, z) in trip]
-    ko = ctx.lean.drive(kl) if kl else []
+    both = ctx.lean.drive(probes_l + kl)
+    po, ko = both[:len(probes_l)], both[len(probes_l):]
     for cs, (k0, kn) in zip(cases, kidx):
         cs["k_close"] = False
         for o in ko[k0:k0 + kn]:
@@ -348,6 +348,9 @@ def run_mhn_stream(ctx, cuqi, thorough, H):
             consumed = int(toks[2])
             mcalls = parse_calls(H, toks[3])
             icalls = rng.calls
+            for x, y in zip(mv, vals):
+                if math.isfinite(x) and math.isfinite(y):
+                    cov["tie_max_value_deviation_vs_tol_1e-9"] = max(cov.get("tie_max_value_deviation_vs_tol_1e-9", 0.0), abs(x - y) / (1.0 + abs(x)))
             if len(mv) != len(vals) or not all(close(x, y, 1e-9) or (x == y) for x, y in zip(mv, vals)):
                 bad = (mv, vals, "returned draws")
             elif len(icalls) != 2 * consumed:
